@@ -165,4 +165,4 @@ Qed.
 
 (* ... and the guard does fire beyond that *)
 Lemma parse_name_guard_pf : exists s line, person_of_string s = PyErr E_BIBTEX line.
-Proof. exists (s2l "x " ++ repeat c_lbrace 101 ++ s2l " y"), (-1)%Z. vm_compute. reflexivity. Qed.
+Proof. exists (s2l "x " ++ repeat c_lbrace 101 ++ repeat c_rbrace 101 ++ s2l " y"), (-1)%Z. vm_compute. reflexivity. Qed.
